@@ -4,6 +4,7 @@ prop=sys.argv[1]
 seen=collections.OrderedDict()
 for l in open('/verif/.work/%s/violations.txt'%prop, newline='\n'):
     part,idx,d=l.rstrip('\n').split('\t',2)
+    d=re.sub(r'^\[sig [^\]]*\] ','',d)
     m=re.match(r'(\[[^\]]*\]*\]?) (.*?) ⏎ source: (.*)',d)
     if not m:
         key=d[:80]; src=''
